@@ -61,9 +61,9 @@ _TXN_FREE = {'set', 'begin', 'commit', 'rollback', 'noop'}
 
 class ExecutorMixin:
     # ------------------------------------------------------------------ top level
-    def execute(self, sess, sql, args=None, binder=None):
-        """Parse (cached) + execute one client statement; returns Result.  Raises pymysql-style errors."""
-        from .engine import Result
+    def execute(self, sess, sql, args=None):
+        """Parse (cached) + execute one client statement; returns Result.  Raises pymysql-style errors.
+        Synchronous entry point: it does not take the transaction gate (use the aiomysql facade for that)."""
         if args is not None:
             from .driver import bind
             sql, params = bind(sql, args)
@@ -130,6 +130,8 @@ class ExecutorMixin:
         if m is None:
             raise NotSupported(f'statement {k}')
         if k in ('insert', 'update', 'delete'):
+            if sess.read_only:
+                raise cond(1792, 'Cannot execute statement in a READ ONLY transaction.')
             mark = len(sess.undo)
             try:
                 n = m(node, sess, frame)
@@ -154,6 +156,8 @@ class ExecutorMixin:
         from .engine import ResultSet
         plan = self._plan(node, frame, lambda n, ctx: self.planner.plan_query(n, None, ctx))
         penv = Env(0, None, frame, sess)
+        if sess.read_only and getattr(node, 'for_update', False):
+            raise cond(1792, 'Cannot execute statement in a READ ONLY transaction.')
         into = getattr(plan, 'into', None)
         if into:
             rows = list(islice(plan.run(penv), 2))
@@ -223,6 +227,15 @@ class ExecutorMixin:
             # does the SELECT read the target table?  then MySQL buffers the result in a temporary table
             lt = t.name.lower()
             p.self_ref = any(x.k == 'src' and x.kind == 'table' and x.name.lower() == lt for x in walk(node.select))
+            # select-list items that ARE a user-variable assignment (`@v := expr`, not nested in another function):
+            # when reading the buffered rows back MySQL re-executes "@v := <stored column>" for each row
+            # (sql_select.cc change_to_use_tmp_fields: SUSERVAR_FUNC); nested assignments are not re-evaluated.
+            p.top_assigns = []
+            if node.select.k == 'spec':
+                for i, it in enumerate(node.select.items):
+                    e0 = strip_paren(it.e)
+                    if e0.k == 'assign':
+                        p.top_assigns.append((i, e0.name))
         p.odku = None
         if node.odku:
             sc = Scope(ctx)
@@ -232,7 +245,7 @@ class ExecutorMixin:
                 sc.sources.append(Src(node.row_alias, names, {}, None, 1))
             elif sel_scope is not None:
                 for s in sel_scope.sources:
-                    sc.sources.append(Src(s.alias, s.cols, s.cs, s.table, s.idx + 1))
+                    sc.sources.append(Src(s.alias, s.cols, s.cs, s.table, s.idx + 1, s.dbl))
                 sc.using_cols = sel_scope.using_cols
             p.odku = []
             for c, e in node.odku:
@@ -295,6 +308,8 @@ class ExecutorMixin:
             # every select-list expression (including @v := ...) is evaluated for ALL rows before any insert.
             buffered = [out for out, _e in p.select.run_env(penv)]
             for out in buffered:
+                for i, name in p.top_assigns:
+                    sess.user_vars[name] = out[i]
                 affected += self.insert_row(sess, t, dict(zip(cols, _unjson(out))), odku, p.ignore)
             return affected
         for out, senv in p.select.run_env(penv):
@@ -560,7 +575,7 @@ class ExecutorMixin:
         return 0
 
     def _implicit_commit(self, sess):
-        if sess.in_fn_or_trigger or sess.depth:
+        if sess.in_fn_or_trigger:
             raise cond(1422, 'Explicit or implicit commit is not allowed in stored function or trigger.')
         self.commit(sess)
 
